@@ -8,7 +8,8 @@
     (processing-instruction('t')), D25 (id()), D27 (union sorts), D29 (numeric predicate compares
     numbers), D50 (stacks popped before an error is propagated), D55 (attributes have no
     children), the de-duplication of the node list after every step of a relative location path
-    (d31a0ff), the absolute path from a namespace node, unary minus once per sign, the repaired
+    (d31a0ff), the absolute path from a namespace node, unary minus once per sign, D63 (an
+    unprefixed function name is in no namespace whatever the default binding, 9d405ca), the repaired
     scalar library (Model/XPathFuncs.v) and the dom's sibling lookup by id (D21) / PI keys (D18).
     Still modelled as found: sorting and de-duplication BY ORDER KEY (so the D19 key collisions of
     namespace nodes and DTD-default attributes conflate nodes).
@@ -681,9 +682,18 @@ Definition exec_fn (local : str) (args : list xvalue) (n : node) : M xvalue :=
        end)), c).
 
 (** the part of [eval_func_expr] before the arguments are evaluated: name resolution, table
-    lookup, arity *)
+    lookup, arity.  A function name without prefix is in no namespace (fix D63, 9d405ca: it used to
+    go through [Context::expanded_name], which gives an unprefixed name the default namespace of the
+    context, so every function call failed once [add_ns(None, ..)] had been called); a prefixed
+    name is resolved through the bindings ([NotFoundNamespace] when the prefix is unbound) *)
+Definition fn_key (ns : list (option str * str)) (name : qname) : res (str * option str) :=
+  match name with
+  | QUnprefixed u => Ok (u, None)       (* fix D63: no namespace, whatever the default binding is *)
+  | QPrefixed _ _ => bind (expanded_name ns name) (fun '(local, _, uri) => Ok (local, uri))
+  end.
+
 Definition resolve_fn (ns : list (option str * str)) (name : qname) (nargs : N) : res str :=
-  bind (expanded_name ns name) (fun '(local, _, uri) =>
+  bind (fn_key ns name) (fun '(local, uri) =>
     match uri, find_func local with
     | None, Some (mn, mx) =>
         if (nargs <? mn) || (match mx with Some m => m <? nargs | None => false end)
